@@ -321,7 +321,12 @@ def check_tuple_size(tuples, tuple_size, context):
 
 def check_y_valid_values_for_pairs(y):
   """Checks that y values are in [-1, 1]"""
-  if not np.array_equal(np.abs(y), np.ones_like(y)):
+  try:
+    valid = np.array_equal(np.abs(y), np.ones_like(y))
+  except TypeError:
+    # non-numeric labels (strings, None): np.abs is not defined for them
+    valid = False
+  if not valid:
     raise ValueError("When training on pairs, the labels (y) should contain "
                      "only values in [-1, 1]. Found an incorrect value.")
 
